@@ -928,6 +928,8 @@ class SetIndex(BaseSetIndexSortValues):
                 self, parent, dependents, additional_columns=addition_columns
             )
             columns = _convert_to_list(columns)
+            # consumers may ask for labels that only exist above this node
+            columns = [col for col in self.frame.columns if col in columns]
             if self.frame.columns == columns:
                 return
             return type(parent)(
